@@ -5,13 +5,13 @@ from . import common as C
 from . import fmtgen as G
 
 LEGACY = {
-    "Deref": ("deref", ["i", "f"]),
-    "DerefMut": ("deref_mut", ["i", "f"]),
+    "Deref": ("deref", ["i", "f", "n"]),
+    "DerefMut": ("deref_mut", ["i", "f", "n"]),
     "Index": ("index", ["i"]),
     "IndexMut": ("index_mut", ["i"]),
     "IntoIterator": ("into_iterator", ["i", "o", "r", "m"]),
 }
-PARAMS = {"i": "ignore", "f": "forward", "o": "owned", "r": "ref", "m": "ref_mut"}
+PARAMS = {"i": "ignore", "f": "forward", "o": "owned", "r": "ref", "m": "ref_mut", "n": "not(forward)"}
 TYS = [("Vec<u8>", False), ("Box<i32>", False), ("T", True), ("Vec<T>", True), ("[u8;4]", False), ("String", False),
        ("&'static str", False), ("std::collections::BTreeMap<u8,T>", True)]
 LISTED = [("u8", False), ("str", False), ("[u8]", False), ("T", True), ("Vec<u8>", False), ("Vec<T>", True), ("String", False),
@@ -27,6 +27,9 @@ def legacy_attr(rng, attr, allowed, force=None):
         ps = rng.sample(allowed, rng.below(min(3, len(allowed)) + 1))
         if "i" in ps and len(ps) > 1 and rng.chance(3, 4):
             ps = ["i"]
+        if "f" in ps and "n" in ps:          # `forward, not(forward)` contradicts itself (C17's subject)
+            drop = rng.choice(["f", "n"])
+            ps = [p for p in ps if p != drop]
     if not ps:
         return f"#[{attr}] ", "(a)"
     return f"#[{attr}(" + ", ".join(PARAMS[p] for p in ps) + ")] ", "(a " + " ".join(ps) + ")"
@@ -246,6 +249,25 @@ def behaviour(res, rng, tier):
             f'let t: &Vec<A> = &*s; check("@ID", "forwarded deref == field {k}\'s own deref", addr(t).to_string(), addr(<W as Deref>::deref(&{f})).to_string());',
             f's.deref_mut().push(A(7)); check("@ID", "forwarded deref_mut writes what field {k}\'s own deref_mut writes", format!("{{:?}}", {f}.1.last()), format!("{{:?}}", Some(A(7))));',
         ] + [f'check("@ID", "neighbour field {j} untouched", format!("{{:?}}", {acc(j)}), format!("{{:?}}", W::new({20 * j})));' for j in range(n) if j != k])
+        # struct-level `forward` switched off again for the selected field by `not(forward)`: back to the field's own storage
+        # (added after seed C14-j: a field-level `not(..)` must override what the struct-level attribute turned on)
+        n, k, named, style, acc = shape()
+        if n > 1:
+            src = struct_src(["Deref", "DerefMut"], ["#[deref(not(forward))]", "#[deref_mut(not(forward))]"], n, k, named, "W", "select")
+            src = src.replace("pub struct", "#[deref(forward)] #[deref_mut(forward)] pub struct")
+            for j in range(n):
+                if j != k:
+                    src = src.replace(f"pub f{j}: W" if named else "pub W", ("#[deref(ignore)] #[deref_mut(ignore)] " + (f"pub f{j}: W" if named else "pub_W")), 1)
+            src = src.replace("pub_W", "pub W")
+        else:
+            src = struct_src(["Deref", "DerefMut"], ["#[deref(not(forward))]", "#[deref_mut(not(forward))]"], n, k, named, "W", "select",
+                             struct_attr="#[deref(forward)] #[deref_mut(forward)] ")
+        f = acc(k)
+        add(src, [
+            f"let mut s = {ctor(n, named, lambda i: f'W::new({20 * i})')};",
+            f'let t: &W = &*s; check("@ID", "not(forward): deref address == field {k} address", addr(t).to_string(), addr(&{f}).to_string());',
+            f'let a = addr(&{f}); let t: &mut W = &mut *s; check("@ID", "not(forward): deref_mut address == field {k} address", addr(t).to_string(), a.to_string());',
+        ])
         # Index / IndexMut
         n, k, named, style, acc = shape()
         src = struct_src(["Index", "IndexMut"], ["#[index]", "#[index_mut]"], n, k, named, "W", style)
